@@ -28,9 +28,13 @@ for d in dirs:
         meta = {}
         try: meta = json.load(open("%s/%s/meta.json" % (d, variant)))
         except Exception: pass
-        base = meta.get("base") or head
-        sh("git -C %s checkout -q --detach %s && git -C %s checkout -q -- . && git -C %s clean -fdq" % (SCR, base, SCR, SCR))
-        if sh("git -C %s apply %s" % (SCR, pd)).returncode:
+        applied = False
+        for base in (head, meta.get("base")):
+            if not base: continue
+            sh("git -C %s checkout -q --detach %s && git -C %s checkout -q -- . && git -C %s clean -fdq" % (SCR, base, SCR, SCR))
+            if sh("git -C %s apply %s" % (SCR, pd)).returncode == 0:
+                applied = True; break
+        if not applied:
             print("%-10s %-4s APPLY-FAILED" % (name, variant)); continue
         props = [own] if (own_only and variant == "bad") else claimed
         with ThreadPoolExecutor(max_workers=6) as ex:
